@@ -202,7 +202,8 @@ int main(void) {
             h2c->sent_goaway = atoi(ltv_tok[2]);
             size_t n; unsigned char *t = ltv_unhex(ltv_tok[3], &n);
             if (n < 9) { puts("bad-op"); free(t); con_end(); continue; }
-            uint8_t *s = malloc(n); memcpy(s, t, n); free(t);
+            /* like every chunk buffer, the frame is followed by a NUL terminator */
+            uint8_t *s = malloc(n + 1); memcpy(s, t, n); s[n] = 0; free(t);
             uint32_t flen = (uint32_t)(n - 9);
             int rc = h2_recv_headers(&con, s, flen);
             printf("rc=%d ", rc);
